@@ -31,7 +31,7 @@ sys.path.insert(0, HERE)
 import vlib  # noqa: E402
 
 REPO = os.environ.get('VERIF_REPO', '/repo')
-LEAN = os.path.join(VERIF, 'lean')
+LEAN = os.environ.get('VERIF_LEAN', os.path.join(VERIF, 'lean'))
 GUARD = 'ROMEA_CORE_COMMON_VERIF'
 ALLOWED_AXIOMS = {'propext', 'Classical.choice', 'Quot.sound'}
 FORBIDDEN = re.compile(r'\bsorry\b|\badmit\b|^\s*axiom\s|native_decide|bv_decide|implemented_by|\bunsafe\s|maxHeartbeats\s+0\b', re.M)
